@@ -74,9 +74,39 @@ def backoffContract (cfg : Config) (outs : List Outcome) (delays : List Dur) : B
     let cur := intervalAt cfg i
     if d > thr then backoffInRange cur d else decide (d = thr) && decide (cur - 1 ≤ 2 * thr))
 
+/-- `@<sleep µs>` suffix of a script item, in ns (0 if absent) -/
+def sleepOf (s : String) : Int :=
+  match s.splitOn "@" with
+  | [_, us] => (us.toInt?.getD 0) * 1000
+  | _ => 0
+
+/-- wall-clock sanity of a loop line; upper bounds carry 2 s of slack and are never tight.
+(a) real waits only: the next attempt returned no earlier than `delay` after the failure (timers never fire early)
+    and no later than `delay + its own sleep + 2 s` after the wait was entered;
+(b) `retry_returns_by` on the wall clock: with `0 < M`, sane intervals and no negative throttle the whole call took
+    at most `M + maxBackoff + longest scripted sleep + 2 s`. -/
+def wallOK (cfg : Config) (real : Bool) (outs : List Outcome) (sleeps : List Int) (natt : Nat)
+    (delays : List Int) (bounds : List (Int × Int)) (total : Option Int) : Bool :=
+  let slack : Int := 2000000000
+  let stepOK := !real ||
+    (List.range (natt - 1)).all (fun i =>
+      match delays[i]?, bounds[i]?, bounds[i + 1]? with
+      | some w, some (lo, hi), some (lo', _) =>
+        decide (lo' - lo ≥ w) && decide (lo' - hi ≤ max w 0 + sleeps.getD (i + 1) 0 + slack)
+      | _, _, _ => true)
+  let totalOK := match total with
+    | none => true
+    | some t =>
+      !(decide (0 < cfg.maxElapsed) && decide (0 ≤ cfg.initial) && decide (0 ≤ cfg.maxInterval) &&
+        (outs.take natt).all (fun o => decide (0 ≤ Spec.throttleOf o))) ||
+      decide (t ≤ cfg.maxElapsed + maxBackoff cfg + (sleeps.foldl max 0) + slack)
+  stepOK && totalOK
+
 def loopLine (inp obs : List String) : Option Verdict :=
   match inp, obs with
-  | [_, _, wmode, en, ini, mi, me, cancel, script], [res, natt, delays, elapsed, g, p] => do
+  | [_, _, wmode, en, ini, mi, me, cancel, script], res :: natt :: delays :: elapsed :: g :: p :: tTok => do
+    let total : Option Int := (tTok.head?).bind (fun t => (t.drop 1).toString.toInt?)
+    let sleeps := (script.splitOn ",").map sleepOf
     let ini ← ini.toInt?
     let mi ← mi.toInt?
     let me ← me.toInt?
@@ -87,7 +117,8 @@ def loopLine (inp obs : List String) : Option Verdict :=
     let delays ← parseInts delays
     let bounds ← parseBounds elapsed
     let real := wmode == "r"
-    let bs : List Dur := if real then List.replicate outs.length 1 else delays
+    -- the requested delays are observed in both modes; they are the model's backoff inputs (see backoffContract)
+    let bs : List Dur := delays
     let attsLo := mkAttempts outs (bounds.map (·.1))
     let attsHi := mkAttempts outs (bounds.map (·.2))
     let mLo := requestLoop cfg attsLo bs cancelAt
@@ -101,11 +132,16 @@ def loopLine (inp obs : List String) : Option Verdict :=
       match resOf res last with
       | none => pure { agree := false, spec := "FAIL", nontrivial := true, branches := "badres", model := modelStr }
       | some ores =>
-        let orun : Run := { result := ores, attempts := natt, waits := if real then mLo.waits else delays }
+        let orun : Run := { result := ores, attempts := natt, waits := delays }
         let agree := resName mLo.result == res && mLo.attempts == natt &&
-          (real || (mLo.waits == delays && backoffContract cfg outs delays))
+          mLo.waits == delays && backoffContract cfg outs delays
         let specB :=
-          (if cfg.enabled then Spec.runOK cfg attsLo cancelAt orun else Spec.disabledSingle outs orun) &&
+          (if cfg.enabled then
+             Spec.runOK cfg attsLo cancelAt orun && Spec.timeOK cfg attsLo orun &&
+             -- the attempt bound is about a clock on which waits take their time: real waits only
+             (!real || Spec.attemptsBounded cfg outs orun)
+           else Spec.disabledSingle outs orun) &&
+          wallOK cfg real outs sleeps natt delays bounds total &&
           !(g.toList.contains '0') && p != "p0"
         let tags := s!"{resName ores},{if cfg.enabled then "en" else "dis"},w{min (orun.waits.length) 3}" ++
           (if real then ",real" else "") ++ (if cancelAt.isSome then ",cancelscript" else "") ++
@@ -290,6 +326,7 @@ def upLine {α : Type} (parse : String → Option α) (classify : α → Outcome
           let orun : Run := { result := ores, attempts := natt, waits := m.waits }
           (if cfg.enabled then
             Spec.onlyAfterRetryable outs orun && Spec.stopsAtFirstTerminal outs orun &&
+            Spec.timeOK cfg atts orun &&
             (cancelAt.isNone || ores == .cancelled || natt ≤ (cancelAt.map (·.1)).getD 0 + 1)
            else Spec.disabledSingle outs orun) &&
           handled == s!"h{((outs.take natt).filter (· == .ok true)).length}"
